@@ -108,3 +108,10 @@ def rules(t):
     shared.share(t, out, "C11.i", "a broadcast is obtained once per client: an unordered message is buffered only behind the received_messages test", "C02", ("C02.a",))
     shared.share(t, out, "C11.j", "traffic is attributed to one session per client id: the slot fill is behind the already-connected test on the id", "C10", ("C10.a1",))
     return out
+
+_rules_c11_w5b = rules
+def rules(t):
+    import rules.wave5 as W5
+    out = _rules_c11_w5b(t)
+    out.append(W5.full_visit(t, "C11.k", "RenetServer::update advances every connection: a disconnected or failing connection does not stop the traversal of the others", "RenetServer::update", "connections"))
+    return out
